@@ -346,6 +346,11 @@ func runParse(c Case) (res obs.Result) {
 			if master == nil {
 				continue
 			}
+			if !shards && len(e.Ranges) == 0 {
+				// CLUSTER SLOTS has one row per range: a primary that serves no slot is not in the reply at all
+				// (genRanges leaves an owner without range when two cuts coincide)
+				continue
+			}
 			ma := epAddr(*master, tls)
 			if shards {
 				listed[ma] = true
@@ -685,6 +690,26 @@ func runDoOnce(c Case, try int) (res obs.Result, raced bool) {
 	}
 	res.Coq = obs.App("CDo", obs.Z(int64(maxRedir)), obs.Bool(!disableRetry), zlist(delays), obs.Z(int64(slot)), obs.Bool(!write),
 		ro.OptAddr(w0), ro.Addrs(known), obs.List(env), obs.List(sends), final.Coq(), ro.OptAddr(wAfter))
+	// The model identifies a connection with its address. A MOVED / ASK that names the node the attempt was picked
+	// on makes the client replace that node's connection object (redirectOrNew's reconnect branch); a SECOND such
+	// reply in the same call then meets `prev != conns[addr]` in the code where the model sees `prev == addr`.
+	// Such histories (about 1 in 20000 generated cases) are outside the address abstraction: no model term, the
+	// direct oracle below still judges them.
+	{
+		cc, self := "", 0
+		for i, a := range arr {
+			if i == 0 || (ticks[i-1].Kind != "moved" && ticks[i-1].Kind != "ask") {
+				cc = a.Node // a fresh pick
+			}
+			if (ticks[i].Kind == "moved" || ticks[i].Kind == "ask") && ticks[i].Addr == cc {
+				self++
+			}
+		}
+		if self >= 2 {
+			res.Coq = ""
+			res.Kind = "do-reconnect-twice"
+		}
+	}
 	res.Sig = fmt.Sprint("do", version, nprim, write, stepsDesc(steps), migr, maxRedir, disableRetry, delays, given[slot] == w0)
 	if x != nil {
 		res.Kind = "do-x"
